@@ -67,7 +67,8 @@ theorem load_after_store_invariant (ctx : Ctx)
     of `CJumpPass`; its subsequent pruning of phi inputs / unreachable blocks is not covered), and — again
     under `tyCheck` — an integer load replaced by the operand of the latest store to the same address
     operand in the same block with no store / call / CopyBlob / inline asm in between (the forwarding half of
-    `LoadAfterStorePass`),
+    `LoadAfterStorePass`), and the chain rewrite `(y ± c1) ± c2 → y ± c3` of `ConstantFolder` at integer types
+    (`c3 ≡ c1 + c2` modulo the width),
     every defined behaviour is preserved. -/
 theorem subst_validator_sound (m m' : Module) (h : checkSubst m m' = true) (cfg : Config) :
     Preserves cfg m m' :=
